@@ -254,7 +254,42 @@ def recognition(ctx):
             ctx.ob(P, 'RF1-sync-recognise', f, site, 'ok')
 
 
+def init_clears_tables(ctx):
+    """COSyncInit (node initialisation and every reset communication) leaves every per-PDO slot of the SYNC service empty:
+    TX table (pointer, divisor, counter), RX table pointer and the "frame pending" marker of every buffered synchronous
+    RPDO - a marker that survives the reset lets the first SYNC after the restart apply a frame received before it."""
+    m = ctx.m
+    f = 'COSyncInit'
+    m.need(f)
+    nt, nr = m.extent('CO_SYNC', 'TPdo'), m.extent('CO_SYNC', 'RPdo')
+    pe = PEval(m, f)
+    pe.record_sets = False
+    pe.inline_names = set(['COSyncRemove'])      # a clearing loop written through the removal helper is folded through it
+    pe.store_filter = lambda k, fld: True
+    trs = pe.run({'sync': 1, 'node': 1})
+    want = ['sync->TSync[%d]' % i for i in range(nt)] + ['sync->TPdo[%d]' % i for i in range(nt)] + ['sync->TNum[%d]' % i for i in range(nt)] + \
+           ['sync->RPdo[%d]' % i for i in range(nr)] + ['sync->RFrm[%d].Identifier' % i for i in range(nr)]
+    bad = None
+    for t in trs:
+        final = {}
+        for e in t.stores():
+            final[e[1]] = e[2]
+        missing = [k for k in want if final.get(k) != 0]
+        if missing:
+            bad = 'not cleared: %s' % missing[:6]
+    if not trs:
+        bad = 'no path'
+    site = 'COSyncInit clears %d slots' % len(want)
+    props = P + ['C13', 'C20']
+    if bad:
+        ctx.ob(props, 'RF9-sync-init', f, site, None)
+        ctx.find(props, 'RF9-sync-init', f, 'init-clears', m.loc(f, m.funcs[f].line), '%s: %s' % (site, bad))
+    else:
+        ctx.ob(props, 'RF9-sync-init', f, site, 'every table slot and every pending marker')
+
+
 def run(ctx):
+    init_clears_tables(ctx)
     id_write(ctx)
     cycle_write(ctx)
     activate(ctx)
